@@ -312,8 +312,52 @@ def build_race_binary():
         gobuild.GOENV["GOFLAGS"] = flags
 
 
-def race_run(seed=0, seconds=8.0, tier="quick", data=None, keep=False):
-    """one race-detector run. `data` = the extractor's JSON (build/access.json is used when None)."""
+def build_race_harness():
+    """the correspondence harness built with -race (inlining off in the module's packages, as for the daemon)"""
+    flags = gobuild.GOENV.get("GOFLAGS", "")
+    gobuild.GOENV["GOFLAGS"] = (flags + " -gcflags=github.com/markusressel/fan2go/...=-l").strip()
+    try:
+        return gobuild.build("harness", race=True, out=os.path.join(gobuild.BUILD, "verifharness-race-noinline"))
+    finally:
+        gobuild.GOENV["GOFLAGS"] = flags
+
+
+def shared_curve_run(seed=0, tier="quick", data=None):
+    """ONE curve object (linear / pid / function) shared by several real fan controllers whose control loops are
+    released at the same instant (go/harness/racecurve.go, harness built with -race). Returns a dict shaped like a
+    race_run result. Exercises what the daemon runs rarely line up: the very first evaluations of a shared curve."""
+    import subprocess
+    if data is None:
+        from . import accessgen
+        data = accessgen.extract()
+    binary = build_race_harness()
+    rounds = 12 if tier == "quick" else 60
+    wd = tempfile.mkdtemp(prefix="c20rc-")
+    res = {"seed": seed, "curve": "shared:linear,pid,function", "nfans": 4, "warm": False, "quiet": True, "crashed": False,
+           "requests": 0}
+    try:
+        ops = ["#case rc"] + [f"rc.shared kind={k} loops={2 + (seed + i) % 4} rounds={rounds} cycles=12"
+                              for i, k in enumerate(["function", "linear", "pid", "function"])]
+        open(os.path.join(wd, "ops"), "w").write("\n".join(ops) + "\n")
+        env = dict(os.environ, GORACE="halt_on_error=0 history_size=2", GOMAXPROCS="8")
+        env.pop("DISPLAY", None)
+        r = subprocess.run([binary, os.path.join(wd, "ops"), os.path.join(wd, "out")], stdout=subprocess.PIPE,
+                           stderr=subprocess.PIPE, text=True, timeout=600, env=env)
+        reports = parse_reports(r.stderr)
+        pairs, unmapped, uncovered = map_reports(reports, data)
+        out = open(os.path.join(wd, "out")).read() if os.path.exists(os.path.join(wd, "out")) else ""
+        res.update({"reports": len(reports), "pairs": pairs, "unmapped": unmapped, "not_in_table": uncovered,
+                    "rc": r.returncode, "ran": out.count("ok rounds="), "log_tail": r.stderr[-1500:]})
+    finally:
+        shutil.rmtree(wd, ignore_errors=True)
+    return res
+
+
+def race_run(seed=0, seconds=8.0, tier="quick", data=None, keep=False, curve=None, warm=False, quiet=False):
+    """one race-detector run. `data` = the extractor's JSON (build/access.json is used when None).
+    warm: the fans are characterised by a first, short run, so that in the measured run all control loops start at the
+    same moment (races of first-use initialisation); quiet: no API load (the daemon is not killed by the known
+    'concurrent map' abort before the control loops have met each other)."""
     if data is None:
         from . import accessgen
         try:
@@ -323,9 +367,9 @@ def race_run(seed=0, seconds=8.0, tier="quick", data=None, keep=False):
     binary = build_race_binary()
     nfans = 3 if tier == "quick" else 4
     file_fans = 1
-    curve = ["pid", "linear", "function"][seed % 3]
+    curve = curve or ["pid", "linear", "function"][seed % 3]
     base = tempfile.mkdtemp(prefix="c20race-")
-    res = {"seed": seed, "seconds": seconds, "curve": curve, "nfans": nfans, "file_fans": file_fans}
+    res = {"seed": seed, "seconds": seconds, "curve": curve, "nfans": nfans, "file_fans": file_fans, "warm": warm, "quiet": quiet}
     d = None
     try:
         chip, jpath = daemon.make_tree(base, nfans=nfans)
@@ -333,6 +377,14 @@ def race_run(seed=0, seconds=8.0, tier="quick", data=None, keep=False):
         extras = tier != "quick"
         cfg = make_config(base, chip, nfans, curve, api_port, stats_port, file_fans=file_fans, never_stop=(seed % 2 == 0),
                           extras=extras)
+        if warm:
+            d0 = daemon.Daemon(binary, base, cfg, jpath, extra_env={"GORACE": "halt_on_error=0 history_size=2", "GOMAXPROCS": "4"})
+            try:
+                d0.wait_regulating(chip, nfans=nfans + file_fans + (1 if extras else 0), timeout=60.0)
+                d0.signal(signal.SIGTERM)
+                d0.wait(timeout=30.0)
+            finally:
+                d0.close()
         d = daemon.Daemon(binary, base, cfg, jpath,
                           extra_env={"GORACE": "halt_on_error=0 history_size=2", "GOMAXPROCS": "4"})
         api = f"http://127.0.0.1:{api_port}"
@@ -342,7 +394,7 @@ def race_run(seed=0, seconds=8.0, tier="quick", data=None, keep=False):
         if extras:
             urls += [api + "/fan/cf1/", api + "/sensor/s2/", api + "/sensor/s3/", api + "/curve/cx/"]
         stop = threading.Event()
-        nthreads = 4 if tier == "quick" else 6
+        nthreads = 0 if quiet else 4 if tier == "quick" else 6
         counters = [0] * nthreads
         fan_after = time.time() + (0.6 * seconds + 3.0 if seed % 2 == 1 else 0.0)
         threads = [threading.Thread(target=_hammer, args=(stop, urls, counters, i, fan_after), daemon=True)
